@@ -184,7 +184,7 @@ def main():
             if idx is None:
                 harness.append(f"worker {os.path.basename(out)} exited with status {rc} without a current index; see {out}.err")
                 break
-            fatals.append((idx, "asan" if marker == 2 else "crash", rc, exe, extra, out))
+            fatals.append((idx, "asan" if marker == 2 else "crash", rc, exe, extra, out))  # marker 3 = SIGABRT (failed assert)
             begin = idx + 1
         else:
             print(f"note: worker b{bi}w{w} died more than 40 times; its share of the batch is truncated at index {begin}")
